@@ -458,6 +458,8 @@ pub mod std {
         pub struct MutexGuard<'a, T: ?Sized + 'a> {
             m: &'a Mutex<T>,
             g: Option<::std::sync::MutexGuard<'a, T>>,
+            /// as in std: a lock taken while already unwinding does not poison on release
+            was_panicking: bool,
         }
         impl<T> Mutex<T> {
             pub const fn new(t: T) -> Self {
@@ -475,7 +477,7 @@ pub mod std {
         impl<T: ?Sized> Mutex<T> {
             fn take(&self) -> MutexGuard<'_, T> {
                 let g = self.data.lock().unwrap_or_else(|e| e.into_inner());
-                MutexGuard { m: self, g: Some(g) }
+                MutexGuard { m: self, g: Some(g), was_panicking: ::std::thread::panicking() }
             }
             fn wrap<'a>(&'a self, g: MutexGuard<'a, T>) -> LockResult<MutexGuard<'a, T>> {
                 if self.poisoned.load(O::SeqCst) {
@@ -541,7 +543,7 @@ pub mod std {
         }
         impl<'a, T: ?Sized> Drop for MutexGuard<'a, T> {
             fn drop(&mut self) {
-                if ::std::thread::panicking() {
+                if !self.was_panicking && ::std::thread::panicking() {
                     self.m.poisoned.store(true, O::SeqCst);
                 }
                 self.g.take();
